@@ -148,6 +148,17 @@ def other_rules(tier, rng):
                 if exc is not None:
                     continue
             out.append((name, g.size, g))
+    # hand-made grids whose node array has an INTEGER dtype (a OneDGrid accepts any array): Simpson and
+    # trapezoid on [-1, 1], three integer nodes on [0, inf)
+    hand = [("HandMadeSimpson[int nodes]", np.array([-1, 0, 1]), np.array([1.0, 4.0, 1.0]) / 3, (-1, 1)),
+            ("HandMadeTrapezoid[int nodes]", np.array([-1, 1]), np.array([1.0, 1.0]), (-1, 1)),
+            ("HandMade[int nodes, half line]", np.array([0, 1, 2, 5]), np.array([0.5, 1.0, 2.0, 1.5]), (0, np.inf))]
+    for name, xs, ws, dom in hand:
+        try:
+            g = OneDGrid(xs, ws, dom)
+            out.append((name, g.size, g))
+        except Exception:  # noqa: BLE001
+            pass
     return out
 
 
@@ -547,8 +558,14 @@ def job_random(arg):
     if direction == 0:
         return out
     import grid.onedgrid as od
-    C = getattr(od, name)
-    run_pair(out, inst, fenv, expo, name, lambda: C(n), f"random:{seed}", em.trim, direction, None, inverse=(seed % 2 == 0))
+    if name.startswith("HandMade"):
+        from grid.basegrid import OneDGrid
+        xs0, ws0, dom0 = np.array(rule.points), np.array(rule.weights), tuple(rule.domain)   # keeps the integer dtype
+        mk = (lambda: OneDGrid(xs0.copy(), ws0.copy(), dom0))
+    else:
+        C = getattr(od, name)
+        mk = (lambda: C(n))
+    run_pair(out, inst, fenv, expo, name, mk, f"random:{seed}", em.trim, direction, None, inverse=(seed % 2 == 0))
     return out
 
 
